@@ -13,9 +13,14 @@ import Autog.Model.Phase5
     SinkColoring, the default positioner, as a whole (`C17_sinkcoloring_scale`): block building (`setColor`, the block widths),
     the initial coordinates and every round of the `placeBlock` fixpoint iteration commute with the scaling, for every c > 0, every
     state and every fuel; the number of rounds is the same, and the run on the scaled state fails exactly when the original fails.
-    PARTIAL: Brandes–Köpf and the composition of the routers are decided by exact comparison at 2^k (k ∈ −3..6) on
-    generated inputs plus the `Numbers` facts (the only float literals in phases 4/5 are 0, 2 and the B&K median constants;
-    no size or spacing is read in phases 1–3). -/
+    Routers as a whole (`C17_routeStraight/_routePolyline/_routeOrtho_scale`), the merge of the long edges
+    (`mergeLongEdges_scale`), phase 5 as a whole (`C17_phase5_scale`), the three positioners on graph states
+    (`C17_sinkcoloring_scale_state`, `C17_valign_scale_state`, `C17_packright_scale_state`), phase 4 as a whole
+    (`C17_phase4_scale`) and both together (`C17_phase45_scale`): positioning + routing on the scaled state = the scaled
+    result, route points included, same failures. `scaleG` multiplies node sizes and coordinates, layer sizes and route points.
+    PARTIAL: Brandes–Köpf is decided by exact comparison at 2^k (k ∈ −3..6, also in tiny and huge units) on
+    generated inputs plus the `Numbers` facts (the float literals and float-typed constants of phases 4/5 are pinned; no size or
+    spacing is read in phases 1–3: fact `sizeReadsPhases123`, which is what connects `C17_phase45_scale` to the whole pipeline). -/
 
 namespace Autog
 open Phase4Simple
@@ -142,7 +147,6 @@ theorem C17_packright_scale (c ns : Rat) (hc : 0 < c) (g : G) (hwf : LayersWF g)
 
 /-! ### routers: every route point is a fixed linear expression in node coordinates, sizes, layer heights and LayerSpacing -/
 
-def scalePt (c : Rat) (p : Pt) : Pt := (c * p.1, c * p.2)
 
 theorem scaleG_node (c : Rat) (g : G) (n : Nat) :
     ((scaleG c g).node n).x = c * (g.node n).x ∧ ((scaleG c g).node n).y = c * (g.node n).y ∧
@@ -243,19 +247,15 @@ theorem C17_sinkcoloring_exec_scale (c ns : Rat) (hc : 0 < c) (g : G) :
 
 /-! ### the routers as a whole: a routed state scales with the unit, route points included -/
 
-/-- the state with all sizes, coordinates AND route points multiplied by c -/
-def scaleGP (c : Rat) (g : G) : G :=
-  { scaleG c g with edges := g.edges.map fun ed => { ed with pts := ed.pts.map (scalePt c) } }
+/-- the state with all sizes, coordinates AND route points multiplied by c (`scaleG` itself) -/
+abbrev scaleGP (c : Rat) (g : G) : G := scaleG c g
 
 theorem scaleGP_node (c : Rat) (g : G) (n : Nat) : (scaleGP c g).node n = (scaleG c g).node n := rfl
 theorem scaleGP_layers (c : Rat) (g : G) : (scaleGP c g).layers = (scaleG c g).layers := rfl
 
 theorem scaleGP_edge (c : Rat) (g : G) (e : Nat) :
     (scaleGP c g).edge e = { g.edge e with pts := (g.edge e).pts.map (scalePt c) } := by
-  simp only [scaleGP, G.edge, Array.getD_eq_getD_getElem?, Array.getElem?_map]
-  cases g.edges[e]? with
-  | none => simp [default, instInhabitedEdge.default]
-  | some ed => rfl
+  exact scaleG_edge_full c g e
 
 theorem scaleGP_isFlat (c : Rat) (g : G) (e : Nat) : (scaleGP c g).isFlat e = g.isFlat e := by
   simp only [G.isFlat, G.layerOf, scaleGP_edge, scaleGP_node, (scaleG_node c g _).2.2.2.2.2]
@@ -343,9 +343,7 @@ theorem orthoPoints_scaleGP (c ls layerh : Rat) (g : G) : ∀ (ns : List Nat),
     orthoPoints (scaleGP c g) ls layerh ns = orthoPoints (scaleG c g) ls layerh ns
   | [] => rfl
   | [_] => rfl
-  | a :: b :: rest => by
-    simp only [orthoPoints, orthoPoints_scaleGP c ls layerh g (b :: rest)]
-    rfl
+  | a :: b :: rest => rfl
 
 theorem orthoStep_scale (c ls : Rat) (hc : 0 < c) (g : G) (r : Nat × List Nat) :
     orthoStep (c * ls) (scaleGP c g) r = (orthoStep ls g r).map (scaleGP c) := by
@@ -508,5 +506,215 @@ theorem C17_phase5_scale (c ls : Rat) (hc : 0 < c) (alg : Nat) (g : G) :
       · exact C17_routePolyline_scale c g' routes
       · exact C17_routeOrtho_scale c ls hc g' routes
       · rfl
+
+
+/-! ### phase 4 as a whole, on graph states: SinkColoring, VAlign and PackRight followed by the Y assignment -/
+
+/-- a placement plan with every value multiplied by c -/
+def scalePlan (c : Rat) (pl : List (List Nat × List Rat)) : List (List Nat × List Rat) :=
+  pl.map fun p => (p.1, p.2.map (c * ·))
+
+def scaleLayer (c : Rat) (l : Layer) : Layer := { l with w := c * l.w, h := c * l.h }
+
+theorem scaleG_layers_list (c : Rat) (g : G) : (scaleG c g).layers.toList = g.layers.toList.map (scaleLayer c) := by
+  simp [scaleG, scaleLayer]
+
+theorem scaleG_modNode_upd (c : Rat) (upd : Node → Rat → Node)
+    (hupd : ∀ (nd : Node) (x : Rat), upd { nd with x := c * nd.x, y := c * nd.y, w := c * nd.w, h := c * nd.h } (c * x) =
+      { upd nd x with x := c * (upd nd x).x, y := c * (upd nd x).y, w := c * (upd nd x).w, h := c * (upd nd x).h })
+    (g : G) (n : Nat) (x : Rat) :
+    (scaleG c g).modNode n (fun nd => upd nd (c * x)) = scaleG c (g.modNode n fun nd => upd nd x) := by
+  simp only [G.modNode, scaleG]
+  congr 1
+  apply array_map_modify
+  intro nd; exact hupd nd x
+
+theorem setCoord_scale (c : Rat) (upd : Node → Rat → Node)
+    (hupd : ∀ (nd : Node) (x : Rat), upd { nd with x := c * nd.x, y := c * nd.y, w := c * nd.w, h := c * nd.h } (c * x) =
+      { upd nd x with x := c * (upd nd x).x, y := c * (upd nd x).y, w := c * (upd nd x).w, h := c * (upd nd x).h }) :
+    ∀ (ns : List Nat) (xs : List Rat) (g : G),
+    setCoord upd (scaleG c g) ns (xs.map (c * ·)) = scaleG c (setCoord upd g ns xs)
+  | [], _, _ => rfl
+  | _ :: _, [], _ => rfl
+  | n :: ns, x :: xs, g => by
+    have ih := setCoord_scale c upd hupd ns xs (g.modNode n fun nd => upd nd x)
+    simp only [setCoord, List.map_cons, List.zip_cons_cons, List.foldl_cons] at ih ⊢
+    rw [scaleG_modNode_upd c upd hupd]
+    exact ih
+
+theorem placeAllWith_scale (c : Rat) (upd : Node → Rat → Node)
+    (hupd : ∀ (nd : Node) (x : Rat), upd { nd with x := c * nd.x, y := c * nd.y, w := c * nd.w, h := c * nd.h } (c * x) =
+      { upd nd x with x := c * (upd nd x).x, y := c * (upd nd x).y, w := c * (upd nd x).w, h := c * (upd nd x).h }) :
+    ∀ (pl : List (List Nat × List Rat)) (g : G),
+    placeAllWith upd (scaleG c g) (scalePlan c pl) = scaleG c (placeAllWith upd g pl)
+  | [], _ => rfl
+  | p :: pl, g => by
+    simp only [placeAllWith, scalePlan, List.map_cons, List.foldl_cons]
+    rw [setCoord_scale c upd hupd]
+    exact placeAllWith_scale c upd hupd pl _
+
+theorem updX_scale (c : Rat) (nd : Node) (x : Rat) :
+    updX { nd with x := c * nd.x, y := c * nd.y, w := c * nd.w, h := c * nd.h } (c * x) =
+      { updX nd x with x := c * (updX nd x).x, y := c * (updX nd x).y, w := c * (updX nd x).w, h := c * (updX nd x).h } := rfl
+theorem updY_scale (c : Rat) (nd : Node) (y : Rat) :
+    updY { nd with x := c * nd.x, y := c * nd.y, w := c * nd.w, h := c * nd.h } (c * y) =
+      { updY nd y with x := c * (updY nd y).x, y := c * (updY nd y).y, w := c * (updY nd y).w, h := c * (updY nd y).h } := rfl
+
+theorem heightsOf_scaleG (c : Rat) (g : G) (l l' : Layer) (hn : l'.nodes = l.nodes) :
+    heightsOf (scaleG c g) l' = (heightsOf g l).map (c * ·) := by
+  simp only [heightsOf, hn, List.map_map, Function.comp_def, (scaleG_node c g _).2.2.2.1]
+
+theorem growAllH_scale (c : Rat) (hc : 0 < c) (g : G) : growAllH (scaleG c g) = scaleG c (growAllH g) := by
+  have h : (scaleG c g).layers.map (growH (scaleG c g)) = (g.layers.map (growH g)).map (scaleLayer c) := by
+    apply Array.ext'
+    simp only [Array.toList_map, scaleG_layers_list, List.map_map]
+    apply List.map_congr_left
+    intro l _
+    have hh : heightsOf (scaleG c g) { index := l.index, nodes := l.nodes, w := c * l.w, h := c * l.h } =
+        (heightsOf g l).map (c * ·) := heightsOf_scaleG c g l _ rfl
+    simp only [Function.comp, growH, scaleLayer, hh, foldl_maxRat_scale c hc]
+  simp only [growAllH, h]
+  simp only [scaleG, scaleLayer, Array.map_map, Function.comp_def]
+
+/-- the Y assignment commutes with the scaling -/
+theorem assignYCoords_scale (c ls : Rat) (g : G) :
+    assignYCoords (c * ls) (scaleG c g) = scaleG c (assignYCoords ls g) := by
+  unfold assignYCoords
+  have hp : assignYPlan (c * ls) (scaleG c g) = scalePlan c (assignYPlan ls g) := by
+    simp only [assignYPlan, scalePlan, C17_layerYs_scale, scaleG_layers_list, List.zip_map, List.map_map]
+    apply List.map_congr_left
+    intro p _
+    simp [Function.comp, scaleLayer]
+  rw [hp]
+  exact placeAllWith_scale c updY (updY_scale c) _ g
+
+/-- SinkColoring writes the scaled coordinates to the scaled state -/
+theorem scWrite_scale (c : Rat) (hc : 0 < c) (g : G) (xc : Array Rat) :
+    scWrite (scaleG c g) (xc.map (c * ·)) = scaleG c (scWrite g xc) := by
+  unfold scWrite
+  have hp : scPlan (scaleG c g) (xc.map (c * ·)) = scalePlan c (scPlan g xc) := scPlan_scale c g xc
+  rw [hp]
+  have := placeAllWith_scale c updX (updX_scale c) (scPlan g xc) g
+  simp only [placeAll] at this ⊢
+  rw [this, growAllH_scale c hc]
+
+/-- **C17, SinkColoring on graph states** -/
+theorem C17_sinkcoloring_scale_state (c ns : Rat) (hc : 0 < c) (g : G) :
+    execSinkColoring (c * ns) (scaleG c g) = (execSinkColoring ns g).map fun r => (scaleG c r.1, r.2) := by
+  rw [C17_sinkcoloring_exec_scale c ns hc, execSinkColoring_coords]
+  cases scCoords ns g with
+  | error e => rfl
+  | ok r => simp only [Except.map, scWrite_scale c hc]
+
+
+theorem valignPlan_scale (c ns : Rat) (hc : 0 < c) (g : G) :
+    valignPlan (c * ns) (scaleG c g) = scalePlan c (valignPlan ns g) := by
+  simp only [valignPlan, scalePlan, scaleG_layers_list, List.map_map, maxLayerW_scale c ns hc]
+  apply List.map_congr_left
+  intro l _
+  have hw : widthsOf (scaleG c g) (scaleLayer c l) = (widthsOf g l).map (c * ·) := widthsOf_scaleG c g l _ rfl
+  simp only [Function.comp, hw, valign_scale]
+  rfl
+
+theorem valignLayers_scale (c ns : Rat) (hc : 0 < c) (g : G) :
+    valignLayers (c * ns) (scaleG c g) = (valignLayers ns g).map (scaleLayer c) := by
+  apply Array.ext'
+  simp only [valignLayers, Array.toList_map, scaleG_layers_list, List.map_map]
+  apply List.map_congr_left
+  intro l _
+  have hw : widthsOf (scaleG c g) (scaleLayer c l) = (widthsOf g l).map (c * ·) := widthsOf_scaleG c g l _ rfl
+  have hh : heightsOf (scaleG c g) (scaleLayer c l) = (heightsOf g l).map (c * ·) := heightsOf_scaleG c g l _ rfl
+  have h0 : (0 : Rat) = c * 0 := by grind
+  simp only [Function.comp, hw, hh, layerW_scale]
+  conv => lhs; rw [h0, foldl_maxRat_scale c hc]
+  rfl
+
+/-- **C17, VAlign on graph states** -/
+theorem C17_valign_scale_state (c ns : Rat) (hc : 0 < c) (g : G) :
+    execVerticalAlign (c * ns) (scaleG c g) = scaleG c (execVerticalAlign ns g) := by
+  unfold execVerticalAlign
+  rw [valignPlan_scale c ns hc, valignLayers_scale c ns hc]
+  have h : ({ scaleG c g with layers := (valignLayers ns g).map (scaleLayer c) } : G) =
+      scaleG c { g with layers := valignLayers ns g } := by
+    simp only [scaleG]
+    rfl
+  rw [h]
+  exact placeAllWith_scale c updX (updX_scale c) _ _
+
+theorem packRightPlan_scale (c ns : Rat) (hc : 0 < c) (g : G) :
+    packRightPlan (c * ns) (scaleG c g) = scalePlan c (packRightPlan ns g) := by
+  simp only [packRightPlan, scalePlan, scaleG_layers_list, List.map_map, packLeftBound_scale c ns hc]
+  apply List.map_congr_left
+  intro l _
+  have hr : packRightRaw (c * ns) (scaleG c g) (scaleLayer c l) = (packRightRaw ns g l).map (c * ·) :=
+    packRightRaw_scale c ns g l _ rfl
+  simp only [Function.comp, hr, List.map_map]
+  refine congrArg (Prod.mk _) ?_
+  apply List.map_congr_left
+  intro x _
+  simp only [Function.comp]; grind
+
+/-- **C17, PackRight on graph states** -/
+theorem C17_packright_scale_state (c ns : Rat) (hc : 0 < c) (g : G) :
+    execPackRight (c * ns) (scaleG c g) = scaleG c (execPackRight ns g) := by
+  unfold execPackRight
+  rw [packRightPlan_scale c ns hc]
+  have := placeAllWith_scale c updX (updX_scale c) (packRightPlan ns g) g
+  simp only [placeAll] at this ⊢
+  rw [this, growAllH_scale c hc]
+
+theorem scaleG_nsize' (c : Rat) (g : G) : (scaleG c g).nodes.size = g.nodes.size := by simp [scaleG]
+
+theorem phase4Simple_scale (c ns ls : Rat) (hc : 0 < c) (alg : Nat) (g : G) :
+    phase4Simple alg (c * ns) (c * ls) (scaleG c g) = (phase4Simple alg ns ls g).map (scaleG c) := by
+  unfold phase4Simple
+  simp only [scaleG_nsize']
+  split
+  · simp only [pure, Except.pure, Except.map, Except.ok.injEq]
+    have hw := (scaleG_node c g 0).2.2.1
+    have hh := (scaleG_node c g 0).2.2.2.1
+    simp only [hw, hh]
+    simp only [scaleG]
+    congr 1
+    exact (array_map_modify (scaleLayer c) (fun l => { l with w := c * (g.node 0).w, h := c * (g.node 0).h })
+      (fun l => { l with w := (g.node 0).w, h := (g.node 0).h }) (fun _ => rfl) g.layers 0)
+  · simp only [bind, Except.bind]
+    split
+    · simp only [pure, Except.pure, Except.map, C17_valign_scale_state c ns hc, assignYCoords_scale]
+    · simp only [pure, Except.pure, Except.map, C17_packright_scale_state c ns hc, assignYCoords_scale]
+    · rfl
+
+/-- the options with NodeSpacing and LayerSpacing multiplied by c -/
+def scaleCfg (c : Rat) (cfg : Cfg) : Cfg := { cfg with ns := c * cfg.ns, ls := c * cfg.ls }
+
+/-- **C17, phase 4 as a whole for SinkColoring, VAlign and PackRight** (positioner, layer heights, Y assignment) -/
+theorem C17_phase4_scale (c : Rat) (hc : 0 < c) (cfg : Cfg) (hp : cfg.p4 ≤ 2) (g : G) :
+    phase4Model (scaleCfg c cfg) (scaleG c g) = (phase4Model cfg g).map (scaleG c) := by
+  unfold phase4Model
+  simp only [scaleG_nsize', scaleCfg]
+  split
+  · exact phase4Simple_scale c cfg.ns cfg.ls hc 1 g
+  · match h : cfg.p4, hp with
+    | 0, _ =>
+      simp only [bind, Except.bind, C17_sinkcoloring_scale_state c cfg.ns hc]
+      cases execSinkColoring cfg.ns g with
+      | error e => rfl
+      | ok r => simp only [Except.map, pure, Except.pure, assignYCoords_scale]
+    | 1, _ => exact phase4Simple_scale c cfg.ns cfg.ls hc 1 g
+    | 2, _ => exact phase4Simple_scale c cfg.ns cfg.ls hc 2 g
+
+/-- **C17, phases 4 and 5 together**: from the state the ordering phase hands over, positioning (SinkColoring, VAlign or PackRight)
+    and routing (Polyline, Straight, Orthogonal or none) on the state with every size multiplied by c > 0, under NodeSpacing and
+    LayerSpacing multiplied by c, return exactly the scaled result — every node coordinate, layer size and route point — and
+    fail exactly when the original run fails. Phases 1–3 never read a size (fact `sizeReadsPhases123`). -/
+theorem C17_phase45_scale (c : Rat) (hc : 0 < c) (cfg : Cfg) (hp : cfg.p4 ≤ 2) (g : G) :
+    (phase4Model (scaleCfg c cfg) (scaleG c g) >>= phase5 cfg.p5 (scaleCfg c cfg).ls) =
+      (phase4Model cfg g >>= phase5 cfg.p5 cfg.ls).map (scaleG c) := by
+  rw [C17_phase4_scale c hc cfg hp]
+  cases phase4Model cfg g with
+  | error e => rfl
+  | ok g4 =>
+    simp only [Except.map, bind, Except.bind, scaleCfg]
+    exact C17_phase5_scale c cfg.ls hc cfg.p5 g4
 
 end Autog
